@@ -74,6 +74,38 @@ theorem variant_eq_model_utf8 {impl : Prog → Input → Nat → Nat → Obs} (h
   | failed st s p => rw [hA prog inp fuel pos _ (by rw [hr]; rfl)]; rfl
   | outOfFuel => rw [hA prog inp fuel pos _ (by rw [hr]; rfl)]; rfl
 
+/-- **Any two build variants agree — no restriction on the program** beyond the decidable
+certificates `wfProgFull` (which every program dumped from the real compiler passes, and which
+include case-insensitive back-references). -/
+theorem feature_variants_agree_utf8_full {implA implB : Prog → Input → Nat → Nat → Obs}
+    (hA : RefinesBt implA) (hB : RefinesBt implB)
+    {prog : Prog} {inp : Input} {cs : List Nat}
+    (hw : wfProgFull prog = true)
+    (h : Utf8Text inp cs) {pos : Nat} (hp : VUtf8 inp pos) (fuel : Nat) :
+    implA prog inp fuel pos = implB prog inp fuel pos := by
+  have hs := bt_attemptFresh_safe_full hw h hp fuel
+  cases hr : Bt.attemptFresh prog inp fuel pos with
+  | error e => rw [hr] at hs; exact absurd hs (by simp [Bt.Post])
+  | matched e st s p =>
+    rw [hA prog inp fuel pos _ (by rw [hr]; rfl), hB prog inp fuel pos _ (by rw [hr]; rfl)]
+  | failed st s p =>
+    rw [hA prog inp fuel pos _ (by rw [hr]; rfl), hB prog inp fuel pos _ (by rw [hr]; rfl)]
+  | outOfFuel =>
+    rw [hA prog inp fuel pos _ (by rw [hr]; rfl), hB prog inp fuel pos _ (by rw [hr]; rfl)]
+
+/-- … and every variant returns exactly the model's observation there. -/
+theorem variant_eq_model_utf8_full {impl : Prog → Input → Nat → Nat → Obs} (hA : RefinesBt impl)
+    {prog : Prog} {inp : Input} {cs : List Nat}
+    (hw : wfProgFull prog = true)
+    (h : Utf8Text inp cs) {pos : Nat} (hp : VUtf8 inp pos) (fuel : Nat) :
+    obsBt (Bt.attemptFresh prog inp fuel pos) = some (impl prog inp fuel pos) := by
+  have hs := bt_attemptFresh_safe_full hw h hp fuel
+  cases hr : Bt.attemptFresh prog inp fuel pos with
+  | error e => rw [hr] at hs; exact absurd hs (by simp [Bt.Post])
+  | matched e st s p => rw [hA prog inp fuel pos _ (by rw [hr]; rfl)]; rfl
+  | failed st s p => rw [hA prog inp fuel pos _ (by rw [hr]; rfl)]; rfl
+  | outOfFuel => rw [hA prog inp fuel pos _ (by rw [hr]; rfl)]; rfl
+
 /-- Position algebra: a pointer position `base + off` and an index position `off` satisfy the same
 laws (what `position.rs` implements twice). -/
 theorem position_algebra (base a b n : Nat) :
@@ -94,5 +126,7 @@ example : RefinesBt (fun prog inp fuel pos =>
 end Regress.C15
 
 #print axioms Regress.C15.feature_variants_agree_utf8
+#print axioms Regress.C15.feature_variants_agree_utf8_full
+#print axioms Regress.C15.variant_eq_model_utf8_full
 #print axioms Regress.C15.variant_eq_model_utf8
 #print axioms Regress.C15.position_algebra
